@@ -441,6 +441,11 @@ def oracle(case, out):
     """case: dict(text, expect='accept'|'reject', line, rule).  Returns (why, key) or None."""
     if out["kind"] == "crashed":
         key = out["key"]
+        if key == "crash:attribute_util.py:_is_constant_boolean:AttributeError" and \
+                not case.get("rule", "").endswith("-string"):
+            # the open finding is about *expression* values; a string value crashing here again would
+            # be the regression of fix 3424c1b and must be reported
+            key += ":non-boolean-expression-value"
         if case.get("rule", "").startswith("position:enum-value"):
             # same defect: the value is never type-checked, then folded as an integer
             key = K_ENUM_VALUE_BOOL if case["rule"].endswith(":bool") else K_ENUM_VALUE
@@ -641,7 +646,7 @@ def run(tier):
     stats["corpus_and_testdata"] = len(cases)
     # 2. generated
     r = common.rng("C13")
-    n = 70 if tier == "quick" else 1500
+    n = 70 if tier == "quick" else 600
     gen = list(gen_cases(r, n, tier))
     ops, rules, positions, depths = {}, {}, {}, {}
     for c in gen:
